@@ -11,6 +11,7 @@
      (decided by the table-method model, whose answer is proved correct in C03) *)
 From Coq Require Import ZArith List Bool.
 From CSS Require Import Base.Sx Forest.Spec Forest.Model Forest.Run Spec.Extractor.
+From CSS Require Spec.GroupingRun Spec.FindRuleRun.
 Import ListNotations.
 Open Scope Z_scope.
 
@@ -57,5 +58,14 @@ Definition run_pumps (a : sx) : sx :=
   | Some st => L (map (fun k => of_bool (snd (is_pumping st (parent k)))) ks)
   end.
 
+(* fields 2.. were added later (an input without them gets the "nothing to do" answers):
+     2  SpecificationRuleExtractor._find_rule / rules()     Spec/FindRuleRun.v
+     3  CombinatorialSpecification.__init__                 Spec/GroupingRun.v
+     4  the same constructor on the rules in reverse order (the result does not depend on the order)
+     5  the same constructor on the rules with one rule left out (a rule set that is not closed) *)
 Definition run_c02 (inp : sx) : sx :=
-  L [run_extractor (sx_nth inp 0); run_pumps (sx_nth inp 1)].
+  L [run_extractor (sx_nth inp 0); run_pumps (sx_nth inp 1);
+     Spec.FindRuleRun.run_findrule (sx_nth inp 2);
+     Spec.GroupingRun.run_spec (sx_nth inp 3);
+     Spec.GroupingRun.run_spec (sx_nth inp 4);
+     Spec.GroupingRun.run_spec (sx_nth inp 5)].
